@@ -1,5 +1,6 @@
 import JunoModel.Common.Proto
 import JunoModel.C03.Model
+import JunoModel.C03.ModelApi
 /-!
 Line-protocol driver for the C03 model (`lake build c03drv`).
 
@@ -7,27 +8,40 @@ Line-protocol driver for the C03 model (`lake build c03drv`).
   univ a|k|c <hex>*                 universe of addresses / slots / class hashes for `dump`
   store <blockhash> <p1|p2> <diff>  diff in the token form of harness/cmd/c03/enc.go
   revert
-  dump <new|legacy|abs> head | num <n> | hash <blockhash>
+  dump <new|legacy|abs> [fl <f>] head | num <n> | hash <blockhash>
+                                    `fl <f>`: through a retention floor seeded at <f> (default: unseeded)
+  dumpstore <new|legacy>            every entry of the buckets the model keeps (contract records / class hash, nonce,
+                                    deployment height; the three history buckets; classes; CASM metadata; chain height,
+                                    headers, state updates, commitments, hash index), one token each, unsorted
+  prune-commitments <m>             the block commitments below <m> are deleted (what the pruner leaves in the
+                                    bucket the floor is seeded from)
+  seedfloor <new|legacy> [<m>]      the floor a new process seeds (after the commitments below <m> are dropped)
+  histkey <n> <byte>*               db.*HistoryAtBlockKey: prefix bytes ++ big-endian uint64 of <n>
+  keylt <n> <m>                     bytes.Compare(key n, key m) < 0 on such keys
   reset
+
+The nodes are the BUCKET-level nodes of ModelApi.lean (`BNode`: chain height, headers, state updates,
+commitments, hash index as buckets).
 
 `store`/`revert` answer `new=<ok|err:…> legacy=<ok|err:…>` (`store`: plus ` not-wf` when the diff is
 outside the theorems' hypothesis `Diff.WF`); `dump` answers one token per read in
-the order: per address (class hash, nonce, each slot), per class (declared-at, compiled class
-hash); tokens: hex value | nf | at<hex block>; `noview` when the view does not exist.
+the order: per address (class hash, nonce, each slot, last-update block of each slot), per class
+(declared-at, compiled class hash, compiled class hash v2); tokens: hex value | nf | at<hex block>;
+`noview` when the view does not exist.
 -/
 open Juno.Proto Juno.C03
 
 structure DState where
   cfg : Cfg
-  nw : Node NState
-  lg : Node LState
+  nw : BNode NState
+  lg : BNode LState
   /-- the abstract chain (newest first): every diff the harness stored and did not revert -/
   chain : List Diff
   addrs : List Nat
   slots : List Nat
   classes : List Nat
 
-def DState.init : DState := ⟨Cfg.asFound, Node.init (newBackend Cfg.asFound), Node.init (legacyBackendOf false false), [], [], [], []⟩
+def DState.init : DState := ⟨Cfg.asFound, BNode.init (newBackend Cfg.asFound), BNode.init (legacyBackendOf false false), [], [], [], []⟩
 
 def hexList (ws : List String) : Option (List Nat) := ws.mapM hexToNat?
 
@@ -91,23 +105,28 @@ def clsTok : Res → String
   | .ok v => "at" ++ natToHex v
   | .notfound => "nf"
 
-def dumpWith (s : DState) (rd : Query → Res) (casm : Nat → Res) : String :=
+def dumpWith (s : DState) (rd : Query → Res) (casm : Nat → Res) (lu : Nat → Nat → Nat) (casm2 : Nat → Res) : String :=
   let perAddr := s.addrs.map (fun a =>
-    [resTok (rd (.classHash a)), resTok (rd (.nonce a))] ++ s.slots.map (fun k => resTok (rd (.storage a k))))
-  let perClass := s.classes.map (fun c => [clsTok (rd (.cls c)), resTok (casm c)])
+    [resTok (rd (.classHash a)), resTok (rd (.nonce a))] ++ s.slots.map (fun k => resTok (rd (.storage a k))) ++
+      s.slots.map (fun k => natToHex (lu a k)))
+  let perClass := s.classes.map (fun c => [clsTok (rd (.cls c)), resTok (casm c), resTok (casm2 c)])
   " ".intercalate (perAddr.flatten ++ perClass.flatten)
 
-def dumpNode {σ : Type} (s : DState) (be : Backend σ) (n : Node σ) (v : View) : String :=
-  match n.resolve be v with
+def dumpNode {σ : Type} (s : DState) (be : Backend σ) (lu : σ → Option Nat → Addr → Slot → Nat) (n : BNode σ)
+    (fl : Option Nat) (v : View) : String :=
+  match n.resolve be fl v with
   | none => "noview"
   | some _ =>
-    dumpWith s (fun q => (n.read be v q).getD .notfound) (fun c => (n.readCasm be v c).getD .notfound)
+    dumpWith s (fun q => (n.read be fl v q).getD .notfound) (fun c => (n.readCasm be fl v c).getD .notfound)
+      (fun a k => (n.readLastUpdated lu be fl v a k).getD 0) (fun c => (n.readCasmV2 be fl v c).getD .notfound)
 
 /-- the spec: `absAt`, read as the property says; for the system contracts (never in
-`DeployedContracts`) the stored value / zero -/
+`DeployedContracts`) the stored value / zero; last-update block = most recent block up to `k` whose
+diff lists the slot; compiled class hash v2 = the one of the declaration, if declared up to `k` -/
 def dumpAbs (s : DState) (k : Nat) : String :=
   if k < s.chain.length then
     let st := absAt s.chain k
+    let sub := s.chain.drop (s.chain.length - 1 - k)
     dumpWith s
       (fun q => match q with
         | .storage a sl => if isSystem a then .ok (st.stor a sl) else st.read q
@@ -115,13 +134,68 @@ def dumpAbs (s : DState) (k : Nat) : String :=
         | .nonce a => if isSystem a then .ok 0 else st.read q
         | .cls _ => st.read q)
       (fun c => match st.casm c with | some v => .ok v | none => .notfound)
+      (fun a sl => lastBlockWhere (fun d _ => (d.storageAt a sl).isSome) s.chain k)
+      (fun c => match v2Of sub c with | some v => .ok v | none => .notfound)
   else "noview"
+
+/-! ### store-level dump: the content of the buckets the model keeps, one token per entry
+(the harness sorts the tokens and compares them with the real database, bucket by bucket) -/
+
+def hx := natToHex
+
+def histToks (tag : String) (pre : String) (h : Hist) : List String :=
+  h.map (fun e => tag ++ ":" ++ pre ++ ":" ++ hx e.1 ++ "=" ++ hx e.2)
+
+def hkeyToks (p : HKey × Hist) : List String :=
+  match p.1 with
+  | .storage a k => histToks "hs" (hx a ++ ":" ++ hx k) p.2
+  | .nonce a => histToks "hn" (hx a) p.2
+  | .classHash a => histToks "hc" (hx a) p.2
+
+def metaTok (p : CHash × CasmMeta) : String :=
+  "mt:" ++ hx p.1 ++ "=" ++ hx p.2.declaredAt ++ "," ++ hx p.2.v2 ++ "," ++ hx p.2.migratedAt ++ "," ++
+    (match p.2.v1 with | some v => hx v | none => "-")
+
+def blockStoreToks {σ : Type} (n : BNode σ) : List String :=
+  (match n.height with | some h => ["ht=" ++ hx h] | none => []) ++
+  n.headers.map (fun p => "hd:" ++ hx p.1 ++ "=" ++ hx p.2) ++
+  n.updates.map (fun p => "su:" ++ hx p.1) ++
+  n.commitments.map (fun p => "cm:" ++ hx p.1) ++
+  n.hashIdx.map (fun p => "hi:" ++ hx p.1 ++ "=" ++ hx p.2) ++
+  n.casmMeta.map metaTok
+
+def newStoreToks (n : BNode NState) : List String :=
+  n.st.contracts.map (fun p => "ct:" ++ hx p.1 ++ "=" ++ hx p.2.nonce ++ "," ++ hx p.2.classHash ++ "," ++ hx p.2.deployedHeight) ++
+  (n.st.hist.map hkeyToks).flatten ++
+  n.st.classes.map (fun p => "cl:" ++ hx p.1 ++ "=" ++ hx p.2) ++
+  blockStoreToks n
+
+def legacyStoreToks (n : BNode LState) : List String :=
+  n.st.classHash.map (fun p => "ch:" ++ hx p.1 ++ "=" ++ hx p.2) ++
+  n.st.nonce.map (fun p => "nn:" ++ hx p.1 ++ "=" ++ hx p.2) ++
+  n.st.deployHeight.map (fun p => "dh:" ++ hx p.1 ++ "=" ++ hx p.2) ++
+  (n.st.logs.map hkeyToks).flatten ++
+  n.st.classes.map (fun p => "cl:" ++ hx p.1 ++ "=" ++ hx p.2) ++
+  blockStoreToks n
+
+def toksLine (l : List String) : String := if l.isEmpty then "-" else " ".intercalate l
 
 def parseView : List String → Option View
   | ["head"] => some .head
   | ["num", n] => (hexToNat? n).map .num
   | ["hash", h] => (hexToNat? h).map .hash
   | _ => none
+
+/-- `[fl <f>] <view>` -/
+def parseFloorView : List String → Option (Option Nat × View)
+  | "fl" :: f :: rest => do
+    let f ← hexToNat? f
+    let v ← parseView rest
+    pure (some f, v)
+  | rest => (parseView rest).map (fun v => (none, v))
+
+def bytesHex (l : List Nat) : String :=
+  String.join (l.map (fun b => let h := natToHex b; if h.length < 2 then "0" ++ h else h))
 
 def step (s : DState) (line : String) : DState × String :=
   match words line with
@@ -199,16 +273,46 @@ def step (s : DState) (line : String) : DState × String :=
       | .error e => (s.lg, "err:" ++ errName e)
     ({ s with nw := nw, lg := lg, chain := s.chain.drop 1 }, "new=" ++ a ++ " legacy=" ++ b)
   | "dump" :: m :: vw =>
-    match parseView vw with
+    match parseFloorView vw with
     | none => (s, "bad-op")
-    | some v =>
-      if m == "new" then (s, dumpNode s (newBackend s.cfg) s.nw v)
-      else if m == "legacy" then (s, dumpNode s (legacyBackendOf s.cfg.migValFix s.cfg.dupDeclFix) s.lg v)
+    | some (fl, v) =>
+      if m == "new" then (s, dumpNode s (newBackend s.cfg) NState.lastUpdated s.nw fl v)
+      else if m == "legacy" then
+        (s, dumpNode s (legacyBackendOf s.cfg.migValFix s.cfg.dupDeclFix) LState.lastUpdated s.lg fl v)
       else if m == "abs" then
-        match v with
-        | .num k => (s, dumpAbs s k)
-        | _ => (s, "bad-op")
+        match fl, v with
+        | none, .num k => (s, dumpAbs s k)
+        | _, _ => (s, "bad-op")
       else (s, "bad-op")
+  | ["dumpstore", m] =>
+    if m == "new" then (s, toksLine (newStoreToks s.nw))
+    else if m == "legacy" then (s, toksLine (legacyStoreToks s.lg))
+    else (s, "bad-op")
+  | ["prune-commitments", below] =>
+    match hexToNat? below with
+    | none => (s, "bad-op")
+    | some b => ({ s with nw := s.nw.dropCommitmentsBelow b, lg := s.lg.dropCommitmentsBelow b }, "ok")
+  | ["seedfloor", m] =>
+    if m == "new" then (s, natToHex s.nw.seedFloor)
+    else if m == "legacy" then (s, natToHex s.lg.seedFloor)
+    else (s, "bad-op")
+  | ["seedfloor", m, below] =>
+    match hexToNat? below with
+    | none => (s, "bad-op")
+    | some b =>
+      if m == "new" then (s, natToHex (s.nw.dropCommitmentsBelow b).seedFloor)
+      else if m == "legacy" then (s, natToHex (s.lg.dropCommitmentsBelow b).seedFloor)
+      else (s, "bad-op")
+  | "histkey" :: n :: pfx =>
+    match hexToNat? n, hexList pfx with
+    | some n, some pfx =>
+      if n < 2 ^ 64 && pfx.all (· < 256) then (s, bytesHex (histKey pfx n)) else (s, "bad-op")
+    | _, _ => (s, "bad-op")
+  | ["keylt", n, m] =>
+    match hexToNat? n, hexToNat? m with
+    | some n, some m =>
+      if n < 2 ^ 64 && m < 2 ^ 64 then (s, if bytesLt (histKey [] n) (histKey [] m) then "1" else "0") else (s, "bad-op")
+    | _, _ => (s, "bad-op")
   | _ => (s, "bad-op")
 
 def main : IO Unit := loop step DState.init
